@@ -685,7 +685,7 @@ theorem site_verdict_is_resolution_of_visible (p : SeqPath) (pre post : List Seq
     same reason / ambiguous between the same overloads / unmatched). -/
 theorem visible_prefix_independent (p p' : SeqPath) (pre post pre' post' : List SeqItem) (m m' : Nat)
     (x : List TArg) (a : List ETy) (v v' : List TCand) (o o' : SiteObs)
-    (hv : visibleAt p pre post m = some v) (hv' : visibleAt p' pre' post' m' = some v')
+    (hv : visibleAt p pre post m = .functions v) (hv' : visibleAt p' pre' post' m' = .functions v')
     (hperm : List.Perm v v') (hid : (v.map (·.id)).Nodup)
     (ho : (pre.length, o) ∈ runSeq p (pre ++ .site m x a :: post))
     (ho' : (pre'.length, o') ∈ runSeq p' (pre' ++ .site m' x a :: post')) :
@@ -694,9 +694,108 @@ theorem visible_prefix_independent (p p' : SeqPath) (pre post pre' post' : List 
   simp only [siteObs, SiteObs.normalize]
   rw [callT_perm hperm x a hid]
 
+/-! ### symbols of the same name that are not functions (seeded defect C16-5)
+
+A scope's vector for a name may hold, next to the overloads, a `Type` (struct, typedef, enum), a `ConstantBuffer`, a
+`Namespace` and an `EnumScope` symbol, in any order (legal since 31dddea).  `find_identifier_in_scope` walks the whole
+vector and collects every function; `Model.gatherLoop` is that loop. -/
+
+/-- **`gathering_ignores_non_function_symbols`**: the candidate list `find_identifier_in_scope` hands over is the filter
+    of the symbol vector by `isFunction`, in the vector's order — whatever else the vector contains and wherever it
+    stands (before all overloads, between any two, after all).  No overload is dropped, none is added. -/
+theorem gathering_ignores_non_function_symbols (syms : List Sym) :
+    gatherLoop [] syms = (syms.filter Sym.isFunction).filterMap Sym.fn? ∧
+    (gatherLoop [] syms).map Sym.fn = syms.filter Sym.isFunction := by
+  have h1 : ∀ syms : List Sym, (syms.filter Sym.isFunction).filterMap Sym.fn? = syms.filterMap Sym.fn? := by
+    intro syms
+    induction syms with
+    | nil => rfl
+    | cons x xs ih => cases x <;> simp [List.filter_cons, List.filterMap_cons, Sym.isFunction, Sym.fn?, ih]
+  have h2 : ∀ syms : List Sym, (syms.filterMap Sym.fn?).map Sym.fn = syms.filter Sym.isFunction := by
+    intro syms
+    induction syms with
+    | nil => rfl
+    | cons x xs ih => cases x <;> simp [List.filter_cons, List.filterMap_cons, Sym.isFunction, Sym.fn?, ih]
+  rw [gatherLoop_nil]
+  exact ⟨(h1 syms).symm, h2 syms⟩
+
+/-- inserting any symbol that is not a function anywhere into a vector changes nothing of what is gathered; and as long
+    as the vector holds a function, nothing of what `find_identifier_in_scope` answers -/
+theorem non_function_symbol_changes_no_candidate (xs ys : List Sym) (s : Sym) (hs : s.isFunction = false) :
+    gatherLoop [] (xs ++ s :: ys) = gatherLoop [] (xs ++ ys) ∧
+    (gatherLoop [] (xs ++ ys) ≠ [] → findInScope (xs ++ s :: ys) = findInScope (xs ++ ys)) := by
+  have hg : gatherLoop [] (xs ++ s :: ys) = gatherLoop [] (xs ++ ys) := by
+    rw [gatherLoop_nil, gatherLoop_nil]
+    cases s <;> simp_all [Sym.isFunction, List.filterMap_append, List.filterMap_cons, Sym.fn?]
+  refine ⟨hg, fun hne => ?_⟩
+  unfold findInScope
+  simp only [hg]
+  have : (gatherLoop [] (xs ++ ys)).isEmpty = false := by
+    cases h : gatherLoop [] (xs ++ ys) with
+    | nil => exact absurd h hne
+    | cons _ _ => rfl
+  simp [this]
+
+/-- non-vacuity, and the seeded defect C16-5 itself: `int f(int); struct f {..}; int f(float);` (and the same with an
+    enum, a cbuffer, and a namespace in front) — the call with a `float` sees both overloads and selects `f(float)`; a loop
+    that stopped at the first non-function symbol after an overload would hand over `[f(int)]` only -/
+example :
+    let fi : TCand := ⟨0, [], [⟨.conc ⟨{}, .scalar .int32⟩, .in⟩], 1⟩
+    let ff : TCand := ⟨1, [], [⟨.conc ⟨{}, .scalar .float32⟩, .in⟩], 1⟩
+    let arg : List ETy := [⟨⟨{}, .scalar .float32⟩, .lvalue⟩]
+    gatherLoop [] [.fn fi, .type, .fn ff] = [fi, ff] ∧
+    gatherLoop [] [.namespace, .fn fi, .enumScope, .type, .cbuffer, .fn ff, .cbuffer] = [fi, ff] ∧
+    (runSeq .free [.decl 0 fi, .other 0 .struct, .decl 0 ff, .site 0 [] arg]).map (fun x => (x.1, x.2.normalize)) =
+      [(3, .verdict (.accepted 1))] ∧
+    (runSeq .free [.other 0 .namespace, .decl 0 fi, .other 0 .enum, .site 0 [] arg, .decl 0 ff, .other 0 .cbuffer,
+        .site 0 [] arg]).map (fun x => (x.1, x.2.normalize)) = [(3, .verdict (.accepted 0)), (6, .verdict (.accepted 1))] := by
+  decide
+
+/-- **same-name symbols take no candidate away**: at a call site whose lookup reaches a scope with at least one function
+    of the name declared above the call, the verdict is the resolution on *all* functions of the name declared above the
+    call in that scope (`Spec.declared`, which does not look at `other` items) — for every unit, every number, kind
+    and placement of structs / enums / typedefs / cbuffers / namespaces of that name among the declarations. -/
+theorem same_name_symbols_take_no_candidate_away (pre post : List SeqItem) (m : Nat) (x : List TArg) (a : List ETy)
+    (o : SiteObs) (hm : m ≠ 2) (hne : declared (if m = 1 then 1 else 0) pre ≠ [])
+    (ho : (pre.length, o) ∈ runSeq .free (pre ++ .site m x a :: post)) :
+    o = .verdict (callT (declared (if m = 1 then 1 else 0) pre) x a) := by
+  rw [(site_obs_iff .free pre post m x a o).mp ho]
+  have key : ∀ (v : List TCand) (t : Bool), v ≠ [] → scopeKnows v t = .functions v := by
+    intro v t hv
+    cases v with
+    | nil => exact absurd rfl hv
+    | cons c cs => simp [scopeKnows]
+  match m with
+  | 0 => simp only [visibleAt]; rw [key _ _ (by simpa using hne)]; simp [siteObs]
+  | 1 => simp only [visibleAt]; rw [key _ _ (by simpa using hne)]; simp [siteObs]
+  | 2 => exact absurd rfl hm
+  | n + 3 =>
+    have h3 : (if n + 3 = 1 then 1 else 0) = 0 := by simp
+    rw [h3] at hne ⊢
+    simp only [visibleAt]; rw [key _ _ hne]; simp [siteObs]
+
+/-- a scope that declares a type of the name and no function hides the outer overloads: an unqualified call inside
+    `namespace N` whose N holds `struct f` / `enum f` / `typedef .. f` above the call and no function `f` is not a
+    call of a function, whatever the root scope declares; a cbuffer block or a namespace of that name alone hides nothing -/
+theorem inner_type_hides_outer_overloads (pre post : List SeqItem) (x : List TArg) (a : List ETy) (o : SiteObs)
+    (hf : declared 1 pre = []) (ho : (pre.length, o) ∈ runSeq .free (pre ++ .site 2 x a :: post)) :
+    (declaresType 1 pre = true → o = .isType) ∧
+    (declaresType 1 pre = false → o = siteObs (scopeKnows (declared 0 pre) (declaresType 0 pre)) x a) := by
+  rw [(site_obs_iff .free pre post 2 x a o).mp ho]
+  constructor
+  · intro ht; simp [visibleAt, scopeKnows, hf, ht, siteObs]
+  · intro ht; simp [visibleAt, scopeKnows, hf, ht]
+
+example :
+    let fi : TCand := ⟨0, [], [⟨.conc ⟨{}, .scalar .int32⟩, .in⟩], 1⟩
+    let arg : List ETy := [⟨⟨{}, .scalar .int32⟩, .lvalue⟩]
+    (runSeq .free [.decl 0 fi, .other 1 .cbuffer, .site 2 [] arg, .other 1 .typedef, .site 2 [] arg, .site 0 [] arg,
+        .site 1 [] arg]).map (fun x => (x.1, x.2.normalize)) =
+      [(2, .verdict (.accepted 0)), (4, .isType), (5, .verdict (.accepted 0)), (6, .isType)] := by decide
+
 /-- the same when nothing is visible at either site: both report the unknown name -/
 theorem nothing_visible_is_unknown_name (p : SeqPath) (pre post : List SeqItem) (m : Nat) (x : List TArg)
-    (a : List ETy) (o : SiteObs) (hv : visibleAt p pre post m = none)
+    (a : List ETy) (o : SiteObs) (hv : visibleAt p pre post m = .nothing)
     (ho : (pre.length, o) ∈ runSeq p (pre ++ .site m x a :: post)) : o = .noname := by
   rw [(site_obs_iff p pre post m x a o).mp ho, hv]; rfl
 
@@ -752,8 +851,8 @@ example :
 example :
     let c0 : TCand := ⟨0, [], [⟨.conc ⟨{}, .scalar .float32⟩, .in⟩], 1⟩
     let c1 : TCand := ⟨1, [], [⟨.conc ⟨{}, .vector .int32 2⟩, .in⟩], 1⟩
-    visibleAt .free [.decl 0 c1, .decl 1 c0, .site 2 [] [], .decl 1 c1] [.decl 1 ⟨2, [], [], 0⟩] 2 = some [c0, c1] ∧
-    visibleAt .method [] [.decl 0 c1, .decl 0 c0] 0 = some [c1, c0] ∧ List.Perm [c0, c1] [c1, c0] := by
+    visibleAt .free [.decl 0 c1, .decl 1 c0, .site 2 [] [], .decl 1 c1] [.decl 1 ⟨2, [], [], 0⟩] 2 = .functions [c0, c1] ∧
+    visibleAt .method [] [.decl 0 c1, .decl 0 c0] 0 = .functions [c1, c0] ∧ List.Perm [c0, c1] [c1, c0] := by
   refine ⟨by decide, by decide, ?_⟩
   exact List.Perm.swap _ _ _
 
@@ -777,7 +876,11 @@ example :
     methods before it type checks the first body, a call that selects a template instance builds the instance's body
     only if it has none, in the scope the template was declared in, and a struct template is instantiated once per
     argument list, in the scope it was declared in; the instantiation of a function template is found again by the
-    template and *all* its arguments (so the registry is a cache of `substParams`, a function of that key) -/
+    template and *all* its arguments (so the registry is a cache of `substParams`, a function of that key); the loop of
+    `find_identifier_in_scope` that gathers the overloads visits **every** symbol of the vector (no `break`, no
+    `continue`, no guarded or catch-all arm; `Type` / `ConstantBuffer` / `Namespace` / `EnumScope` have empty arms) and the
+    overloads are handed over right after it (`overloadGatheringVisitsAllSymbols`: the seeded defect C16-5 is a `break`
+    in that loop) -/
 theorem resolve_shape_as_modelled :
     RsslVerif.Gen.ResolveShape.shape =
       { arityGuardThenCasts := true, tournamentComparesAllPairsSkippingSelf := true,
@@ -798,7 +901,8 @@ theorem resolve_shape_as_modelled :
         structTemplateIsInstantiatedOncePerArgumentsInTheDeclaringScope := true,
         instantiationIsFoundAgainByTemplateAndAllArguments := true, instantiationIsLookedUpBeforeItIsBuilt := true,
         innermostScopeWithTheNameWins := true,
-        scopeContributesItsOwnFunctionsOnly := true, overloadsAreAppended := true,
+        scopeContributesItsOwnFunctionsOnly := true, overloadGatheringVisitsAllSymbols := true,
+        overloadsAreHandedOverRightAfterTheGatheringLoop := true, overloadsAreAppended := true,
         methodsAreAllMethodsOfThatName := true } ∧
     RsslVerif.Gen.ResolveShape.callers = ["write_function", "write_method"] ∧
     RsslVerif.Gen.ResolveShape.objectMethodsAreAllFunctionsOfThatName = true := by decide
@@ -829,7 +933,8 @@ theorem resolution_reads_no_call_history :
     RsslVerif.Gen.ResolveShape.contextFields =
       ["module", "scopes", "current_scope", "function_to_scope", "struct_template_data"] := by decide
 
-/-- the seven transcribed functions are, character for character (comments and white space aside), the text the model
+/-- the eight transcribed functions (the eighth: `find_identifier_in_scope`, whose gathering loop decides which overloads
+    reach the resolution at all) are, character for character (comments and white space aside), the text the model
     was transcribed from -/
 theorem resolve_source_as_transcribed :
     RsslVerif.Gen.ResolveShape.findFunctionTypeSrc = RsslVerif.Model.OverloadSrc.findFunctionType ∧
@@ -838,7 +943,8 @@ theorem resolve_source_as_transcribed :
     RsslVerif.Gen.ResolveShape.normalizeTemplateTypeSrc = RsslVerif.Model.OverloadSrc.normalizeTemplateType ∧
     RsslVerif.Gen.ResolveShape.applyTemplateTypeSubstitutionSrc = RsslVerif.Model.OverloadSrc.applyTemplateTypeSubstitution ∧
     RsslVerif.Gen.ResolveShape.checkOutputArgumentsSrc = RsslVerif.Model.OverloadSrc.checkOutputArguments ∧
-    RsslVerif.Gen.ResolveShape.checkMutablePlaceSrc = RsslVerif.Model.OverloadSrc.checkMutablePlace :=
-  ⟨rfl, rfl, rfl, rfl, rfl, rfl, rfl⟩
+    RsslVerif.Gen.ResolveShape.checkMutablePlaceSrc = RsslVerif.Model.OverloadSrc.checkMutablePlace ∧
+    RsslVerif.Gen.ResolveShape.findIdentifierInScopeSrc = RsslVerif.Model.OverloadSrc.findIdentifierInScope :=
+  ⟨rfl, rfl, rfl, rfl, rfl, rfl, rfl, rfl⟩
 
 end RsslVerif.Thm.C16
